@@ -9,21 +9,29 @@ sel = sys.argv[1:]
 out = {}
 rj = os.path.join(ROOT, "seeded", "REGRESSION.json")
 if sel and os.path.exists(rj): out = json.load(open(rj))   # partial run: merge into the last full result
-for name in sorted(os.listdir(os.path.join(ROOT, "seeded"))):
+import concurrent.futures, threading
+J = int(os.environ.get("REGRESS_JOBS", "4"))   # every run works in its own copy of /verif and of /repo (try_mutant.py)
+lock = threading.Lock()
+def one(name):
     d = os.path.join(ROOT, "seeded", name)
-    if not os.path.isdir(d) or (sel and not any(name.startswith(s) for s in sel)): continue
     meta = json.load(open(os.path.join(d, "meta.json")))
     ids = meta.get("caught_by") or [meta["breaks_property"]]
     p = subprocess.run([sys.executable, os.path.join(ROOT, "tools", "try_mutant.py"), os.path.join(d, "patch.diff")] + ids,
                        stdout=subprocess.PIPE, stderr=subprocess.STDOUT, text=True, cwd=ROOT)
     lines = p.stdout.splitlines()
     if any("patch does not apply" in l for l in lines):
-        out[name] = {"status": "patch no longer applies to /repo HEAD"}
+        r = {"status": "patch no longer applies to /repo HEAD"}
     else:
         res = {}
         for l in lines:
             for cid in ids:
                 if l.startswith(cid + ": "): res[cid] = "caught" if "CAUGHT" in l else "missed"
-        out[name] = {"status": "caught" if res and all(v == "caught" for v in res.values()) else ("partly" if "caught" in res.values() else "MISSED"), "checks": res}
-    print(name, out[name], flush=True)
-    json.dump(out, open(os.path.join(ROOT, "seeded", "REGRESSION.json"), "w"), indent=1)
+        r = {"status": "caught" if res and all(v == "caught" for v in res.values()) else ("partly" if "caught" in res.values() else "MISSED"), "checks": res}
+    with lock:
+        out[name] = r
+        print(name, r, flush=True)
+        json.dump(dict(sorted(out.items())), open(rj, "w"), indent=1)
+names = [n for n in sorted(os.listdir(os.path.join(ROOT, "seeded")))
+         if os.path.isdir(os.path.join(ROOT, "seeded", n)) and (not sel or any(n.startswith(s) for s in sel))]
+with concurrent.futures.ThreadPoolExecutor(max_workers=J) as ex:
+    list(ex.map(one, names))
